@@ -126,6 +126,32 @@ def show(t, style, rng, need=0):
     return wrap(txt, exp, force)
 
 
+def typename_like_paren(txt):
+    """True when the text holds `( identifier suffix* )` followed by + - * & with every suffix a balanced [...] or (...) group: by the
+    grammar the parenthesised part is also a type-name (typedef name + abstract declarator), i.e. the cast/binary ambiguity of C09,
+    which the parser decides without a symbol table - not a precedence question"""
+    for m in re.finditer(r"\(\s*[A-Za-z_]\w*\s*", txt):
+        i = m.end()
+        ok = True
+        while i < len(txt) and txt[i] in "[(":
+            close = "]" if txt[i] == "[" else ")"
+            depth, j = 0, i
+            while j < len(txt):
+                if txt[j] in "[(": depth += 1
+                elif txt[j] in "])":
+                    depth -= 1
+                    if depth == 0: break
+                j += 1
+            if j >= len(txt) or txt[j] != close:
+                ok = False
+                break
+            i = j + 1
+            while i < len(txt) and txt[i] == " ": i += 1
+        if ok and i < len(txt) and txt[i] == ")" and re.match(r"\s*(?:[-+*&])", txt[i + 1:]):
+            return True
+    return False
+
+
 def dump_to_sexpr(dump):
     recs = {}
     for r in dump.split(" | ")[0].split(" ; ")[1:]:
@@ -221,7 +247,7 @@ def run(ctx):
         t = gen_tree(rng, rng.choice([1, 2, 2, 3, 3, 4]))
         style = ("minimal", "full", "redundant")[j % 3]
         txt, exp = show(t, style, rng)
-        if re.search(r"\)\s*\(", txt) or re.search(r"\(\s*[A-Za-z_]\w*[\s\w\[\]()*']*\)\s*[-+*&]", txt):
+        if re.search(r"\)\s*\(", txt) or re.search(r"\(\s*[A-Za-z_]\w*[\s\w\[\]()*']*\)\s*[-+*&]", txt) or typename_like_paren(txt):
             continue          # `(…)(…)` / `(id…) - x`: call or cast, binary or cast - ambiguity forms (C09), not precedence questions
         cases.append((txt, exp, style))
     lines2 = ["%s e %s" % (OPTS, c[0].encode().hex()) for c in cases]
@@ -238,28 +264,63 @@ def run(ctx):
                 ctx.report("roundtrip:" + txt[:100], "expression %r (%s parentheses): expected %s, parsed %s%s" % (txt, style, sx(exp), sx(got) if got else "nothing", "" if diags == "-" else " with diagnostics " + diags),
                            {"component": "tree", "case": l, "expected": sx(exp)})
             nviol += 1
-    # ---- 3. precedence AFTER disambiguation: `(a) o1 b o2 c o3 d` in a unit where `a` is a variable (binary reading) or a typedef name
-    # (cast reading): the parser shapes the ambiguity's binary alternative around a cast-expression operand; the delivered tree must
-    # still be C's.  (`(a) - b * c` was delivered as `((a) - b) * c`: repaired, see known_findings.jsonl.)
+    # ---- 3. precedence AFTER disambiguation: `[e o0 | prefix] (a) o1 b o2 c o3 d` in a unit where `a` is a variable (binary reading) or a
+    # typedef name (cast reading): the parser shapes the ambiguity around ONE cast-expression operand; the delivered tree must still be C's.
+    # (`(a) - b * c` was delivered as `((a) - b) * c`, `e * (a) - b` as `e * ((a) - b)`, `- (a) - b` as `-((a) - b)`: repaired.)
+    def climb(ops, operands):
+        pos = [0]
+
+        def expr(minlv):
+            left = operands[pos[0]]
+            while pos[0] < len(ops):
+                tok, lv, ra, node = BIN[ops[pos[0]]]
+                if lv < minlv:
+                    break
+                pos[0] += 1
+                right = expr(lv if ra else lv + 1)
+                left = (node, left, right)
+            return left
+        e = expr(1)
+        return e if pos[0] == len(ops) else None
     amb_ops = [o for o in BIN if BIN[o][1] > 2]
-    amb = []
+    UN = {"-": "UnaryMinusExpression", "+": "UnaryPlusExpression", "*": "PointerIndirectionExpression", "&": "AddressOfExpression", "&&": "ExtGNU_LabelAddress",
+          "!": "LogicalNotExpression", "~": "BitwiseNotExpression"}
+    A = ("a",)
+    cases3 = []
+
+    def add(prefix_txt, pre_ops, pre_operands, wrap, o1, tail_ops):
+        """prefix_txt: text before `(a)`; pre_ops/pre_operands: binary context before; wrap: prefix operators / cast applied to the `(a)` operand"""
+        expr = prefix_txt + " ".join(["(a)"] + [x for o, v in zip([o1] + tail_ops, "bcd") for x in (o, v)])
+        for is_type in (False, True):
+            unit = "%s int b, c, d, e; void f(void) { %s; }" % ("typedef int a;" if is_type else "int a;", expr)
+            if is_type:
+                operand = ("CASTNODE", (UN[o1], A))
+                for w in reversed(wrap):
+                    operand = (w, operand)
+                want = climb(pre_ops + tail_ops, pre_operands + [operand] + [A] * len(tail_ops))
+            else:
+                operand = A
+                for w in reversed(wrap):
+                    operand = (w, operand)
+                want = climb(pre_ops + [o1] + tail_ops, pre_operands + [operand] + [A] * (1 + len(tail_ops)))
+            cases3.append((unit, expr, is_type, want))
     for o1 in ("-", "+", "*", "&", "&&"):
         for o2 in amb_ops:
-            amb.append([o1, o2])
+            add("", [], [], [], o1, [o2])
             for o3 in (amb_ops if not ctx.quick else rng.sample(amb_ops, 6)):
-                amb.append([o1, o2, o3])
-        amb.append([o1])
-    cases3 = []
-    for ops3 in amb:
-        expr = " ".join(["(a)"] + [x for o, v in zip(ops3, "bcd") for x in (o, v)])
-        for is_type in (False, True):
-            unit = "%s int b, c, d; void f(void) { %s; }" % ("typedef int a;" if is_type else "int a;", expr)
-            if is_type:
-                w = pratt(ops3[1:])
-                want = None if w is None else ("CAST", ops3[0], w)
-            else:
-                want = pratt(ops3)
-            cases3.append((unit, expr, is_type, want))
+                add("", [], [], [], o1, [o2, o3])
+        add("", [], [], [], o1, [])
+        for o0 in amb_ops:
+            add("e %s " % o0, [o0], [A], [], o1, [])
+            for o2 in (amb_ops if not ctx.quick else rng.sample(amb_ops, 5)):
+                add("e %s " % o0, [o0], [A], [], o1, [o2])
+        for u in ("-", "!", "~", "*", "&", "+"):
+            for tail in ([], ["*"], ["=="], ["+"]):
+                add(u + " ", [], [], [UN[u]], o1, tail)
+                add("e * %s " % u, ["*"], [A], [UN[u]], o1, tail)
+        for tail in ([], ["*"], ["<"]):
+            add("(int) ", [], [], ["CASTNODE"], o1, tail)
+            add("! (int) ", [], [], ["LogicalNotExpression", "CASTNODE"], o1, tail)
     impl3 = stages.run_harness(ctx, "tree", ["%s a %s" % (OPTS, c[0].encode().hex()) for c in cases3])
 
     def find_stmt(t):
@@ -271,12 +332,11 @@ def run(ctx):
                 return r
         return None
 
-    def norm3(e, first=[True]):
-        if e[0] == "IdentifierName": return ("a",)
+    def norm3(e):
+        if e[0] == "IdentifierName": return A
         if e[0] == "ParenthesizedExpression": return norm3(e[1])
-        if e[0] == "CastExpression": return ("a",) if False else ("CASTNODE", norm3(e[2]))
+        if e[0] == "CastExpression": return ("CASTNODE", norm3(e[2]))
         return (e[0],) + tuple(norm3(c) for c in e[1:])
-    UN = {"-": "UnaryMinusExpression", "+": "UnaryPlusExpression", "*": "PointerIndirectionExpression", "&": "AddressOfExpression", "&&": "ExtGNU_LabelAddress"}
     for (unit, expr, is_type, want), i in zip(cases3, impl3):
         if want is None:
             continue
@@ -284,26 +344,16 @@ def run(ctx):
             ctx.report("crash:" + expr, "parsing %r: %s" % (unit, i[:200]), {"component": "tree", "case": "%s a %s" % (OPTS, unit.encode().hex())}); nviol += 1; continue
         whole = dump_to_sexpr(i)
         got = find_stmt(whole) if whole else None
-        if is_type:
-            def subst(w):   # the first operand of the remaining climb is the cast
-                if w == ("a",) : return None
-                return w
-            # expected: climb over [Cast(a, unary b), c, d]: replace the leftmost leaf
-            def leftmost(w, leaf):
-                return leaf if w == ("a",) else (w[0], leftmost(w[1], leaf)) + tuple(w[2:])
-            exp3 = leftmost(want[2], ("CASTNODE", (UN[want[1]], ("a",))))
-        else:
-            exp3 = want
         gs = sx(norm3(got)) if got else "nothing"
-        if i.split(" | ")[-1] != "-" or gs != sx(exp3):
+        if i.split(" | ")[-1] != "-" or gs != sx(want):
             if nviol < 6:
-                ctx.report("disamb-shape:" + unit[:90], "%r with a declared as a %s: delivered %s, C groups it as %s" % (expr, "typedef name" if is_type else "variable", gs, sx(exp3)),
-                           {"component": "tree", "case": "%s a %s" % (OPTS, unit.encode().hex()), "expected": sx(exp3)})
+                ctx.report("disamb-shape:" + unit[:90], "%r with a declared as a %s: delivered %s, C groups it as %s" % (expr, "typedef name" if is_type else "variable", gs, sx(want)),
+                           {"component": "tree", "case": "%s a %s" % (OPTS, unit.encode().hex()), "expected": sx(want)})
             nviol += 1
     ctx.notes["disambiguated_shapes"] = len(cases3)
     ctx.cov.update({
         "evaluations": len(seqs) + len(cases) + len(cases3), "distinct_nontrivial": len(shapes) + len(seqs), "traces_validated_against_impl": len(seqs), "exhaustive": not ctx.quick,
-        "rule": "all operator singles and pairs (30 binary/assignment/comma operators: 930) and %s triples as flat strings 'a o b o c o d' (real parser vs Lean climbing model, FAIL included); %d random expression trees to depth 4 over ALL operators (binary, assignment, conditional, comma, prefix, postfix, cast, sizeof, call, subscript, member, explicit parentheses) printed with minimal / full / redundant parentheses and compared with the parsed tree; '(a) o1 b o2 c o3 d' for the 5 ambiguous o1 (- + * & &&) x all binary o2 (x o3) in whole units with a declared as variable and as typedef name: the tree delivered after disambiguation against C's grouping; non-trivial = distinct expected tree shapes + flat strings"
+        "rule": "all operator singles and pairs (30 binary/assignment/comma operators: 930) and %s triples as flat strings 'a o b o c o d' (real parser vs Lean climbing model, FAIL included); %d random expression trees to depth 4 over ALL operators (binary, assignment, conditional, comma, prefix, postfix, cast, sizeof, call, subscript, member, explicit parentheses) printed with minimal / full / redundant parentheses and compared with the parsed tree; '[e o0 | prefix operator | (int)] (a) o1 b o2 c o3 d' for the 5 ambiguous o1 (- + * & &&) x all binary o0/o2 (x o3) x 6 prefix operators and casts in whole units with a declared as variable and as typedef name: the tree delivered after disambiguation against C's grouping; non-trivial = distinct expected tree shapes + flat strings"
                 % ("all 27,000" if not ctx.quick else "6,000 sampled", len(cases)),
         "samples": [texts[40], texts[-1], cases[0][0], cases[1][0], cases[2][0]],
     })
